@@ -26,15 +26,29 @@ type oracle struct {
 	h        *rt.H
 	recorded map[int]map[[2]int]bool // tid -> addresses its own successful CAS recorded
 	r        *ipamkv.Runner
+	// an AssignIP had its block write conflict after it had incremented the handle:
+	// the code retries without taking the increment back (known defect)
+	assignRetry bool
 }
 
 func (o *oracle) fail(sig, desc string, info map[string]any) {
+	if o.r.StaleDelete && strings.HasPrefix(sig, "handle-") {
+		// the handle accounting of this case went through releaseByHandle's
+		// "block already deleted, decrement anyway" path (known defect)
+		sig += "-after-stale-delete"
+	} else if o.assignRetry && sig == "handle-ne-block-quiescent" {
+		sig += "-after-assignip-retry"
+	}
 	info["replay_ops"] = append([]string(nil), o.r.Cmds...)
 	o.h.OracleFail(sig, desc, info)
 }
 
 func (o *oracle) onStep(r *ipamkv.Runner, st *ipamkv.Step, ctx *ipamkv.ThreadCtx) {
 	e := r.Env
+	if _, isBlk := st.Key.(model.BlockKey); isBlk && ctx != nil && ctx.Op == "assignip" && ctx.Handle != 0 &&
+		st.Verb == ipamkv.VUpdate && st.Outcome == ipamkv.OConflict {
+		o.assignRetry = true
+	}
 	if st.Eff.Changed {
 		if bk, ok := st.Key.(model.BlockKey); ok && st.Eff.After != nil {
 			bid := e.BlockOf[model.IPNetFromPrefix(bk.CIDR).String()]
@@ -300,6 +314,7 @@ func main() {
 		r := ipamkv.NewRunner(h)
 		o.r = r
 		o.recorded = map[int]map[[2]int]bool{}
+		o.assignRetry = false
 		r.OnStep, r.OnEnd, r.OnQuiescent = o.onStep, o.onEnd, o.onQuiescent
 		return r
 	}
